@@ -25,7 +25,7 @@ func VerifC09TSHeaderConfig() {
 			Required: verif.Bool(id + ".required")}
 	}
 	var svcH, metH []*http.Header
-	n1, n2 := verif.StringIn("svc.name", 6, "A-Za-z0-9-"), verif.StringIn("met.name", 6, "A-Za-z0-9-")
+	n1, n2 := verif.StringIn("svc.name", verif.L(6), "A-Za-z0-9-"), verif.StringIn("met.name", verif.L(6), "A-Za-z0-9-")
 	verif.Assume(n1 != "" && n2 != "" && n1 != n2)
 	svcH = append(svcH, mk("svc", n1))
 	if verif.Bool("method.declares") {
